@@ -453,8 +453,9 @@ impl<'a> FreeTypeScaler<'a> {
         glyph_id: GlyphId,
     ) -> Result<ScaledOutline<'a, F26Dot6>, DrawError> {
         self.load(glyph, glyph_id, 0)?;
-        // Use hdmx if hinting is requested and backward compatibility mode
-        // is not enabled.
+        // Use hdmx if hinting is requested, backward compatibility mode
+        // is not enabled and the font is not fixed pitch (`isFixedPitch` of
+        // the `post` table).
         // <https://gitlab.freedesktop.org/freetype/freetype/-/blob/80a507a6b8e3d2906ad2c8ba69329bd2fb2a85ef/src/truetype/ttgload.c#L2559>
         let hdmx_width = if self.is_hinted
             && self
@@ -462,6 +463,12 @@ impl<'a> FreeTypeScaler<'a> {
                 .as_ref()
                 .map(|hinter| !hinter.backward_compatibility())
                 .unwrap_or(true)
+            && !self
+                .outlines
+                .font
+                .post()
+                .map(|post| post.is_fixed_pitch() != 0)
+                .unwrap_or(false)
         {
             self.outlines.hdmx_width(self.ppem, glyph_id)
         } else {
